@@ -213,7 +213,7 @@ func (txi *TxIndex) Search(ctx context.Context, q *query.Query) ([]*abci.TxResul
 	hash, ok, err := lookForHash(conditions)
 	if err != nil {
 		return nil, fmt.Errorf("error during searching for a hash in the query: %w", err)
-	} else if ok {
+	} else if ok && len(conditions) == 1 {
 		res, err := txi.Get(hash)
 		switch {
 		case err != nil:
@@ -227,6 +227,29 @@ func (txi *TxIndex) Search(ctx context.Context, q *query.Query) ([]*abci.TxResul
 
 	// conditions to skip because they're handled before "everything else"
 	skipIndexes := make([]int, 0)
+
+	// a hash condition next to other conditions: the others select, the hash
+	// conditions then filter what they selected
+	wantHashes := make([][]byte, 0)
+	for i, c := range conditions {
+		if c.CompositeKey == types.TxHashKey {
+			s, isStr := c.Operand.(string)
+			if !isStr || c.Op != query.OpEqual {
+				return nil, fmt.Errorf("%s must be compared for equality with a hex string", types.TxHashKey)
+			}
+			h, err := hex.DecodeString(s)
+			if err != nil {
+				return nil, fmt.Errorf("error during searching for a hash in the query: %w", err)
+			}
+			wantHashes = append(wantHashes, h)
+			skipIndexes = append(skipIndexes, i)
+		}
+	}
+	if len(wantHashes) > 0 && len(wantHashes) == len(conditions) {
+		// nothing but hash conditions
+		filteredHashes[string(wantHashes[0])] = wantHashes[0]
+		hashesInitialized = true
+	}
 
 	// extract ranges
 	// if both upper and lower bounds exist, it's better to get them in order not
@@ -275,10 +298,19 @@ func (txi *TxIndex) Search(ctx context.Context, q *query.Query) ([]*abci.TxResul
 	}
 
 	results := make([]*abci.TxResult, 0, len(filteredHashes))
+HASHES:
 	for _, h := range filteredHashes {
+		for _, want := range wantHashes {
+			if !bytes.Equal(h, want) {
+				continue HASHES
+			}
+		}
 		res, err := txi.Get(h)
 		if err != nil {
 			return nil, fmt.Errorf("failed to get Tx{%X}: %w", h, err)
+		}
+		if res == nil {
+			continue
 		}
 		results = append(results, res)
 
